@@ -3,6 +3,7 @@ import Cuke.Driver.Retry
 import Cuke.Driver.Match
 import Cuke.Driver.Pipe
 import Cuke.Driver.Mon
+import Cuke.Driver.Attempt
 /-! `cuke-driver`: one request per line on stdin, one response per line on stdout. -/
 open Cuke Cuke.Wire Cuke.Driver
 
@@ -17,6 +18,10 @@ def dispatch (line : String) : String :=
       | "retry.resolve" => handleRetryResolve args
       | "match.find" => handleMatchFind args
       | "pipe.run" => handlePipeRun args
+      | "attempt.run" => handleAttemptRun args
+      | "mon.c09" => handleMonC09 args
+      | "mon.c10" => handleMonC10 args
+      | "harness.ended" => some "ok"
       | "mon.c01" => handleMonC01 args
       | "mon.c12" => handleMonC12 args
       | _ => none
